@@ -38,6 +38,8 @@ func vrtNext(kind string) string {
 			return "false"
 		case "str":
 			return "\"\""
+		case "doc":
+			return "null"
 		}
 		return "0"
 	}
@@ -82,11 +84,10 @@ func vNameBytes(prefix string, n int) string {
 	return string(b)
 }
 
-func vDoc(tag string) []byte {
-	// arbitrary-document counterexamples are rebuilt by the harness-specific
-	// replay helper; natively an invalid document is the default
-	return []byte(vrtNext("str"))
-}
+// vDoc: the engine renders the arbitrary document of the counterexample as JSON text.
+func vDoc(tag string) []byte { return []byte(vrtNext("doc")) }
+
+func vDocWithout(tag string, absent string) []byte { return vDoc(tag) }
 
 func vTime(tag string) time.Time {
 	ns, _ := strconv.ParseInt(vrtNext("int"), 10, 64)
